@@ -44,6 +44,67 @@ func isLazyAccum(name string) bool {
 	return strings.HasSuffix(name, "ThenAddLazy") || strings.HasSuffix(name, "ThenSubLazy")
 }
 
+// lazyAccumCall: a call of a lazily accumulating kernel, by name or through a local that may hold one
+// (`accumulate := mulThenAdd; if first { accumulate = mul }; accumulate(a, b, acc)`).
+func lazyAccumCall(info *types.Info, fd *ast.FuncDecl, call *ast.CallExpr) bool {
+	switch f := unparen(call.Fun).(type) {
+	case *ast.SelectorExpr:
+		return isLazyAccum(f.Sel.Name)
+	case *ast.Ident:
+		v, _ := info.Uses[f].(*types.Var)
+		if v == nil {
+			return false
+		}
+		if _, isFn := v.Type().Underlying().(*types.Signature); !isFn {
+			return false
+		}
+		seen := map[*types.Var]bool{}
+		var may func(v *types.Var, depth int) bool
+		may = func(v *types.Var, depth int) bool {
+			if seen[v] || depth > 3 {
+				return false
+			}
+			seen[v] = true
+			found := false
+			ast.Inspect(fd.Body, func(n ast.Node) bool {
+				as, ok := n.(*ast.AssignStmt)
+				if !ok || found || len(as.Lhs) != len(as.Rhs) {
+					return !found
+				}
+				for i, l := range as.Lhs {
+					id, ok := l.(*ast.Ident)
+					if !ok {
+						continue
+					}
+					o := info.Defs[id]
+					if o == nil {
+						o = info.Uses[id]
+					}
+					if o != types.Object(v) {
+						continue
+					}
+					switch r := unparen(as.Rhs[i]).(type) {
+					case *ast.SelectorExpr:
+						if isLazyAccum(r.Sel.Name) {
+							found = true
+						}
+					case *ast.Ident:
+						if fn, ok := info.Uses[r].(*types.Func); ok && isLazyAccum(fn.Name()) {
+							found = true
+						} else if w, ok := info.Uses[r].(*types.Var); ok && may(w, depth+1) {
+							found = true
+						}
+					}
+				}
+				return !found
+			})
+			return found
+		}
+		return may(v, 0)
+	}
+	return false
+}
+
 func rangesOverSubRings(l ast.Node) bool {
 	if r, ok := l.(*ast.RangeStmt); ok {
 		return strings.Contains(exprString(r.X), "SubRings")
@@ -86,8 +147,7 @@ func scanLazyRed(c *core.Ctx) []ob {
 			if !ok {
 				return true
 			}
-			sel, ok := unparen(call.Fun).(*ast.SelectorExpr)
-			if !ok || !isLazyAccum(sel.Sel.Name) {
+			if !lazyAccumCall(info, fd, call) {
 				return true
 			}
 			hasLazy = true
